@@ -318,4 +318,19 @@ def SeesCCW (p : V2 K) (es : List (V2 K × V2 K)) : Prop :=
   ∀ e ∈ es, 0 ≤ cr ⟨e.1.x - p.x, e.1.y - p.y⟩ ⟨e.2.x - p.x, e.2.y - p.y⟩
 
 
+/-! ### 3-D observables (specification side) -/
+def massOf3 (a : MP3 K) : K := a.invMass⁻¹
+/-- principal inertias `(1/invI_k²)` -/
+def inertiaOf3 (a : MP3 K) : V3 K :=
+  ⟨(a.invI.x * a.invI.x)⁻¹, (a.invI.y * a.invI.y)⁻¹, (a.invI.z * a.invI.z)⁻¹⟩
+
+theorem withFrame_obs (hs : LawfulSqrt sq) (c : V3 K) (m : K) (pi : V3 K) (f : Quat K)
+    (hx : 0 ≤ pi.x) (hy : 0 ≤ pi.y) (hz : 0 ≤ pi.z) :
+    massOf3 (@MP3.withFrame K (fieldNum K sq) c m pi f) = m ∧
+    inertiaOf3 (@MP3.withFrame K (fieldNum K sq) c m pi f) = pi ∧
+    (@MP3.withFrame K (fieldNum K sq) c m pi f).com = c ∧
+    (@MP3.withFrame K (fieldNum K sq) c m pi f).frame = f := by
+  simp only [MP3.withFrame, massOf3, inertiaOf3, inv_spec, inv_inv, fieldNum_sqrt,
+    sqrt_roundtrip sq hs _ hx, sqrt_roundtrip sq hs _ hy, sqrt_roundtrip sq hs _ hz, and_self]
+
 end C13
